@@ -166,13 +166,19 @@ class C05(ApiScenario):
 class C06(ApiScenario):
     prop = "C06"
     design_ref = "DESIGN.md 3.2, 4/C06"
-    rule = C04.rule + "; every program ends with stop() (+ join() when the observer was started)"
-    level_text = ("Seeded search over API call orders x interleavings with scripted emitters (real inotify/polling emitters: see the C06 sub-runs of the FS/Poll worlds when built); "
+    rule = (C04.rule + "; every program ends with stop() (+ join() when the observer was started); every fourth run index uses the REAL inotify emitter (real kernel behind the shim) or the real "
+            "polling emitter on a real scratch tree: 1-3 application threads issue schedule/unschedule/unschedule_all/start/stop and file-system operations concurrently, a handler may call "
+            "stop()/unschedule_all()/schedule() from its first callback, the root may be removed before stop()")
+    level_text = ("Seeded search over API call orders x interleavings with scripted emitters and with the real inotify and polling emitters; "
                   "verdicts from the scheduler itself: deadlock = no runnable task and no pending timer while a call has not returned; hang = step cap / virtual-time horizon; "
                   "after stop()+join() returned every task started through BaseThread.start is finished.")
     level_note = "deadlock detection is exact for the explored schedule (all blocking goes through simulated primitives); coverage of schedules is sampled (PCT-bounded)."
 
     def gen_case(self, seed, tier, idx):
+        if idx % 4 == 3:
+            from .scen_c06real import gen_real_case
+
+            return gen_real_case(seed)
         case = super().gen_case(seed, tier, idx)
         rng = random.Random(f"{seed}:c06")
         if rng.random() < 0.3:
@@ -184,6 +190,30 @@ class C06(ApiScenario):
             prog = case["actors"][rng.randrange(1, len(case["actors"]))]
             prog.insert(rng.randrange(len(prog) + 1), ["unschedule_all"])
         return case
+
+    def run_case(self, case, sched_seed, trace=None):
+        if case.get("mode") == "real":
+            from .scen_c06real import run_real_case
+
+            return run_real_case(self, case, sched_seed, trace)
+        return super().run_case(case, sched_seed, trace)
+
+    def shrink(self, case):
+        if case.get("mode") != "real":
+            yield from super().shrink(case)
+            return
+        for ai in range(len(case["progs"]) - 1, -1, -1):
+            for cand in drop_each(case["progs"][ai]):
+                c = copy.deepcopy(case)
+                c["progs"][ai] = cand
+                if ai > 0 and not cand:
+                    del c["progs"][ai]
+                yield c
+        if case.get("reentrant"):
+            c = copy.deepcopy(case)
+            c["reentrant"] = None
+            yield c
+        yield from simpler_sched(case)
 
     def oracle(self, run, sim, verdict, final):
         v = hang_violations("C06", verdict)
